@@ -423,7 +423,7 @@ func c07Main(r *engine.Run) {
 	d, w := 1, 2
 	precXY := []int{-2, 0, 3}
 	precZM := [][2]int{{0, 0}, {2, 5}}
-	frames := []int{0, 1, 3, 5}
+	frames := []int{0, 1, 3, 5, 7} // 7: tenths (not dyadic: sums and differences of descaled values round)
 	if r.Thorough() {
 		d, w = 2, 2
 		precXY = []int{-9, -8, -5, -2, -1, 0, 1, 2, 3, 5, 7, 8}
